@@ -308,6 +308,16 @@ fn one_at(r: &mut Report, schema: &Arc<refcodec::layout::Schema>, site: Site, co
     // was the abort actually delivered at this site?
     let delivered = tr.log.iter().any(|e| e.call == call_idx && e.dir == Dir::Tx && e.bytes.len() >= 4 && e.bytes[0] == 0x06 && e.bytes[1] == 0x1e && e.bytes[3] == code);
     if !delivered {
+        if let Some((rc, extra_ms)) = late {
+            // the terminal reports its own card time-out inside the client's grace period; a client that has given up
+            // by then loses the code (and with 6C the 'no card' meaning)
+            let mut c = case_json(&sc, &tr);
+            c["site"] = json!("ReadCard");
+            c["code"] = json!(format!("{code:02x}"));
+            c["abort_arrives_after"] = json!(format!("read_card_timeout {rc} s + {extra_ms} ms"));
+            r.violation("C20 ReadCard: the client has given up before the terminal reports the end of its own card time-out", &format!("read_card_timeout {rc}: abort {code:02x} was due {extra_ms} ms after the terminal's time-out, the call returned {} after {} virtual ms ({} ReadCard requests)", ct.result.short(), ct.virtual_ms, tr.requests.iter().filter(|q| q.cmd == Cmd::ReadCard).count()), c);
+            return;
+        }
         r.inconclusive(&format!("the abort {code:02x} was not delivered at site {site:?} (position {pos})"));
         return;
     }
